@@ -1,6 +1,6 @@
 #!/bin/bash
-# store_seeded.sh <Cxx> <i>: confirm /tmp/mut/Cxx/out/i and store it as /verif/seeded/Cxx-i/
-id=$1; i=$2; src=/tmp/mut/$id/out/$i; dst=/verif/seeded/$id-$i
+# store_seeded.sh <Cxx> <i> [srcroot=/tmp/mut] [dest index=i]: confirm <srcroot>/Cxx/out/i and store it as /verif/seeded/Cxx-<dest>/
+id=$1; i=$2; root=${3:-/tmp/mut}; j=${4:-$i}; src=$root/$id/out/$i; dst=/verif/seeded/$id-$j
 [ -d $src ] || { echo "no $src"; exit 1; }
 out=$(/verif/tools/confirm_seeded.sh $src 2>&1); echo "$out" | tail -2
 echo "$out" | grep -q "confirm .*: ok" || { echo "NOT CONFIRMED $id-$i"; exit 1; }
